@@ -513,6 +513,15 @@ def op_matrix(tier, pfx="m"):
     name = "%s%d" % (pfx, n); n += 1
     yield {"id": name, "layer": "OPM", "items": [("fn", name, ([("a", B)], B, [("return", UN("not", V("a")))]))],
            "main": [("println", CALL(name, ("bool", x))) for x in (False, True)], "op": "not"}
+    # int -> string conversions over the boundary pool widened by every power-of-ten edge (number of printed characters changes there)
+    cpool = sorted(set(list(pool) + [nr.I64_MIN, nr.I64_MIN + 1, nr.I64_MAX] + [s * (10 ** k) + d for k in (1, 2, 9, 10, 17, 18) for s in (1, -1) for d in (-1, 0, 1)]))
+    cpool = [v for v in cpool if nr.I64_MIN <= v <= nr.I64_MAX]
+    convs = [("string", CALL("int_to_string", V("a"))), (I, CALL("str_length", CALL("int_to_string", V("a")))),
+             ("string", BIN("+", ("str", "<"), BIN("+", CALL("int_to_string", V("a")), ("str", ">"))))]
+    for typ, body in convs:
+        name = "%s%d" % (pfx, n); n += 1
+        yield {"id": name, "layer": "OPM", "items": [("fn", name, ([("a", I)], typ, [("return", body)]))],
+               "main": [("println", CALL(name, N(x))) for x in cpool], "split_lines": True, "op": "int_to_string"}
 
 
 def effect_order(tier, pfx="o"):
